@@ -4,7 +4,7 @@ CONSTANTS IB = 1  PB = 2  NF = 10  Leafs = {20}  Sizes = {0, 1, 4, 5}  FailPoint
 CONSTANT U <- MCU1
 CONSTANT OpPages <- MCOpPages1
 CONSTANT IdPages <- MCIdPages1
-CONSTANT FlagSets <- MCFlagsA
+CONSTANT FlagSets <- MCFlagsA2
 INIT Init
 NEXT Next
 INVARIANT NoMismatch
